@@ -72,9 +72,6 @@ structure Site where
 
 def Site.clean (s : Site) : Bool := s.args.all (fun c => !c.sensitive)
 
-/-- clean except for arguments of class `x` -/
-def Site.cleanExcept (x : Cls) (s : Site) : Bool := s.args.all (fun c => !c.sensitive || c == x)
-
 /-- the extracted tables a run is interpreted against -/
 structure Tables where
   logSites : List Site
@@ -147,17 +144,6 @@ def emittedBy (T : Tables) (tbl : List Site) (r : Record) : Bool :=
   match findSite r.site tbl with
   | some s => fitsL T s.args r.args
   | none => false
-
-mutual
-  /-- no leaf of class `x` inside `v` carries a secret atom (used for the `_partial` hypothesis) -/
-  def Val.classPub (x : Cls) : Val → Bool
-    | .leaf c atoms => c != x || allPub atoms
-    | .built _ args => classPubL x args
-    | .wrapped _ => true
-  def classPubL (x : Cls) : List Val → Bool
-    | [] => true
-    | v :: vs => v.classPub x && classPubL x vs
-end
 
 /-- verdict used by the driver: does the table allow a protected value at this site? -/
 def siteVerdict (tbl : List Site) (id : Nat) : String :=
